@@ -386,6 +386,7 @@ class World(object):
         self.start_us = self.clock_us
         # simulated time that passed by sleeping (clock jumps excluded)
         self.slept_us = 0
+        self.tick_sleeps = 0
         self.sleep0_us = int(self.cfg.get('sleep0_us', 50))
         self.poll_no = 0
         self.poll_cap = int(self.cfg.get('poll_cap', 400000))
@@ -441,6 +442,9 @@ class World(object):
             self.clock_us += int(round(secs * 1e6))
             self.slept_us += int(round(secs * 1e6))
             self.stats['sleeps'] += 1
+            # positive sleeps since the user last reset this (a poll preceded by a tick sleep
+            # comes from a wait inside a blocking statement, not from the statement loop)
+            self.tick_sleeps += 1
             # a consumer that is given time makes progress
             if self.video.backlog:
                 self.video.drain()
